@@ -127,6 +127,13 @@ def gen_inputs(t, sd):
         else:
             text = PRELUDE + "def helper():\n" + "\n".join("    " + l for l in body.splitlines()) + "\n    return 0\nhelper()\n"
         add(f"payload:{a}:{b}", text, canary if "CANARY" in PAYLOADS[b] else None)
+    # (ii-b) imports / directives / do-nothing statements in every block context (the line loop has one skip path per kind)
+    for L, c, text in corpus.housekeeping_scripts():
+        add(f"housekeeping:{c}", text)
+    # (ii-c) user functions named like the helpers the transpiler knows (tables keyed by name must not be written)
+    for nm in ("max", "min", "abs", "len", "int", "float", "str", "round", "map", "constrain", "sleep", "range", "bool", "pow", "sum"):
+        add(f"shadow:{nm}", PRELUDE + f"def {nm}(a, b):\n    return a * 1.5\nr = {nm}(2, 3)\nmon.write(r)\n")
+        add(f"shadow-str:{nm}", PRELUDE + f"def {nm}(a):\n    return \"s\" + a\nr = {nm}(\"x\")\nmon.write(r)\n")
     # (iii) arbitrary valid Python: the repository's own sources and tests, and mutated copies
     files = sorted((REPO / "src").rglob("*.py")) + sorted((REPO / "tests").rglob("*.py"))
     for f in files:
